@@ -327,6 +327,34 @@ def aggregate_apply(opname, A, t_axes):
     return g
 
 
+PAIR = z3.Function("PAIR", z3.RealSort(), z3.RealSort(), z3.RealSort())
+
+
+def opaque_apply(opname, A, extra_key=()):
+    """uninterpreted (non-linear) operator on a whole array: N(A)[idx] = UF_{id(A)}(idx); congruence by semantic
+    interning of A's element function (all axes bound)."""
+    A = const_arr(A)
+    bv = bound_vars("O", A.ndim)
+    sizes = tuple(dim_term(d) for d in A.shape)
+
+    def g(out_idx):
+        e = engine.cur()
+        rng = [z3.And(v >= 0, v < smt.z(sz)) for v, sz in zip(bv, sizes)]
+        e.hyps.extend(rng)
+        try:
+            el = A.at_(tuple(bv))
+        finally:
+            del e.hyps[len(e.hyps) - len(rng):]
+        if isinstance(el, CX):
+            t = PAIR(smt.zr(el.re), smt.zr(el.im))
+        else:
+            t = smt.zr(smt.R(el))
+        keyparams = tuple(x if smt.is_conc(x) else ("z", x.get_id()) for x in sizes) + tuple(extra_key)
+        app = interner(e).get((opname, keyparams), t, bv, len(out_idx), e)
+        return app(out_idx)
+    return g
+
+
 AGG_TERMS = {}  # aggregate application -> (op, term, element function over bound vars, sizes): bound facts on demand
 
 
